@@ -213,6 +213,14 @@ func checkDartImports(w *World, r *Result) {
 					if id := identOf(res); id != nil {
 						returned[objOf(info, id)] = true
 					}
+					// a slice literal listing the files: `return decl, []string{importKey, importElem}`
+					if lit, ok := ast.Unparen(res).(*ast.CompositeLit); ok {
+						for _, el := range lit.Elts {
+							if id := identOf(el); id != nil {
+								returned[objOf(info, id)] = true
+							}
+						}
+					}
 				}
 			}
 			return true
